@@ -347,6 +347,8 @@ pub fn run_mode(opts: &Options, prop: &str) -> Report {
         }
     }
     let debug = std::env::var("VERIF_DEBUG_SYNC").is_ok();
+    let mut meta_lines: Vec<String> = vec!["reset".to_string(), "init 1 0".to_string()];
+    let mut meta_impls: Vec<String> = vec!["ok".to_string(), String::new()];
     let mut all_lines: Vec<String> = Vec::new();
     let mut all_impls: Vec<String> = Vec::new();
     let mut owner: Vec<usize> = Vec::new();
@@ -530,11 +532,20 @@ pub fn run_mode(opts: &Options, prop: &str) -> Report {
                                 let tip_before = node.i().storage.get_tip_header().calc_header_hash();
                                 let volatile_empty = node.i().peers.matched_blocks().read().unwrap().is_empty();
                                 in_lc_delivery.set(rp == SupportProtocols::LightClient.protocol_id());
+                                let sites_before = sites.borrow().len();
                                 if let Err(e) = catch(|| node.deliver(p, rp, bytes)) {
                                     aborted = Some(e);
                                     break 'steps;
                                 }
                                 in_lc_delivery.set(false);
+                                if prop == "C08" && crash_at.is_none() {
+                                    // the writes of a tip update against the Meta model
+                                    let tip_sites: Vec<&str> = sites.borrow()[sites_before..].iter().cloned().filter(|s| matches!(*s, "put_last_state" | "put_last_n_headers")).collect();
+                                    if !tip_sites.is_empty() {
+                                        meta_lines.push("tip 1 1 |".to_string());
+                                        meta_impls.push(format!("writes {}", tip_sites.join(" ")));
+                                    }
+                                }
                                 let after = observe_all(&node, branches, serving);
                                 let op = if rp == SupportProtocols::LightClient.protocol_id() {
                                     let tip_after = node.i().storage.get_tip_header().calc_header_hash();
@@ -840,6 +851,18 @@ pub fn run_mode(opts: &Options, prop: &str) -> Report {
     }
     crate::verif_hooks::set_before_write(None);
     ckb_systemtime::faketime().disable_faketime();
+    if meta_lines.len() > 2 {
+        let ans = run_model(opts, "meta", &meta_lines);
+        let mut reported = false;
+        for (i, a) in ans.iter().enumerate() {
+            if meta_impls[i].is_empty() || *a == meta_impls[i] {
+                rep.traces_validated += 1;
+            } else if !reported {
+                reported = true;
+                rep.disagree(&format!("meta: {} (the store writes of a tip update)", meta_lines[i]), &meta_impls[i], a);
+            }
+        }
+    }
     let answers = run_model(opts, "sync", &all_lines);
     let mut bad = BTreeSet::new();
     for (i, a) in answers.iter().enumerate() {
